@@ -21,7 +21,7 @@ RULE = ('callers over {get, get_or_compute, forced get_or_compute, each get_or_c
         'five kinds) by stateless DFS over the scheduling points acquire/exists/release/open-for-read/compute/open-for-write/'
         'write/replace/unlink of the real code, plus seeded random schedules of 3 (thorough: 3-5) callers; per schedule the label of every step, the enabled set before every step, '
         'each caller\'s result, compute counts, final cache file, temp file and lock are compared with the Lean model; '
-        'distinct = distinct (configuration, schedule); non-trivial = at least one caller reaches the compute path or loads')
+        'plus a first-use race with real threads and real filelock (two callers let into the creation of the entry\'s directory together); distinct = distinct (configuration, schedule); non-trivial = at least one caller reaches the compute path or loads')
 ASSUMPTIONS = ['filelock.FileLock is a mutex across threads and processes (replaced by a scheduling mutex in the exploration; the '
                'real lock is exercised by the multi-process smoke run only)',
                'os.replace is atomic; a reader that has opened the cache file reads the content it had when it was opened',
@@ -552,6 +552,7 @@ def run(ctx, search=False):
     finally:
         uninstall()
     smoke(ctx)
+    first_use_race(ctx)
 
 
 def smoke(ctx):
@@ -598,6 +599,60 @@ def smoke(ctx):
             ctx.fail('a call returned an incomplete value under real multi-process use', case, {'process': i, 'bad': bad})
         if miss:
             ctx.fail('get returned NO_VALUE right after get_or_compute returned, under real multi-process use', case, {'process': i})
+
+
+def first_use_race(ctx):
+    """two callers meet on an entry nobody has touched yet (so everything the cache creates on first use is created by both at
+    once): real threads, real filelock; the only forcing is a rendezvous inside os.mkdir (both callers are let into the directory
+    creation together, whatever each of them checked before).  Oracle: no caller fails, get_or_compute returns the computed value (both callers may compute: the property does not forbid it)."""
+    import threading as th
+    import taskchain.cache as tc
+    root = ctx.tmpdir() / 'c15first'
+    root.mkdir(exist_ok=True)
+    real_mkdir = os.mkdir
+    for i in range(ctx.n(8, 60)):
+        d = root / f'r{i}'
+        d.mkdir()
+        cache = tc.JsonCache(d)
+        bar = th.Barrier(2)
+        key = f'{KEY}{i}'
+
+        def mk(path, *a, _bar=bar, _d=str(d), **kw):
+            if os.fspath(path).startswith(_d):
+                try:
+                    _bar.wait(timeout=1.5)
+                except th.BrokenBarrierError:
+                    pass
+            return real_mkdir(path, *a, **kw)
+        computed, out = [], {}
+
+        def caller(n, how):
+            try:
+                if how == 'goc':
+                    out[n] = cache.get_or_compute(key, lambda: (computed.append(n), {'v': i})[1])
+                else:
+                    out[n] = cache.get(key)
+            except Exception as e:  # noqa
+                import traceback
+                out[n] = {'error': f'{type(e).__name__}: {e}'[:200], 'trace': traceback.format_exc()[-1500:]}
+        hows = ['goc', 'goc'] if i % 3 else ['goc', 'get']
+        os.mkdir = mk
+        try:
+            ts = [th.Thread(target=caller, args=(n, h), daemon=True) for n, h in enumerate(hows)]
+            for t in ts:
+                t.start()
+            for t in ts:
+                t.join(20)
+        finally:
+            os.mkdir = real_mkdir
+        case = {'probe': 'first-use race', 'round': i, 'callers': hows}
+        ctx.case(case, nontrivial=True); ctx.count('first_use_race')
+        for n, h in enumerate(hows):
+            r = out.get(n, {'error': 'no result (deadlock?)'})
+            if isinstance(r, dict) and 'error' in r:
+                ctx.fail('a caller failed because another caller touched the same entry for the first time concurrently', case, {'caller': n, **r})
+            elif h == 'goc' and r != {'v': i}:
+                ctx.fail('a concurrent first use returned a wrong value', case, {'caller': n, 'value': repr(r)[:100]})
 
 
 def search(ctx, divergences):
